@@ -32,6 +32,9 @@ struct Expect {
     bare: Vec<Option<String>>,
     table: Option<String>,
     limit: Option<u64>,
+    offset: Option<u64>,
+    /// no WHERE clause and no aggregate: the result is the table's rows, sliced by OFFSET / LIMIT
+    plain: bool,
 }
 
 fn ident_names(id: &Ident) -> Vec<String> {
@@ -102,7 +105,19 @@ fn expect(text: &str) -> Option<Expect> {
         }
         _ => None,
     };
-    Some(Expect { items, bare, table, limit })
+    let offset = match &q.limit_clause {
+        Some(LimitClause::LimitOffset { offset: Some(o), .. }) => match &o.value {
+            Expr::Value(ValueWithSpan { value: SqlValue::Number(n, _), .. }) => n.parse::<u64>().ok(),
+            _ => None,
+        },
+        _ => None,
+    };
+    let any_agg = s.projection.iter().any(|it| match it {
+        SelectItem::UnnamedExpr(e) | SelectItem::ExprWithAlias { expr: e, .. } => crate::features::has_aggregate(e),
+        _ => false,
+    });
+    let plain = s.selection.is_none() && !any_agg;
+    Some(Expect { items, bare, table, limit, offset, plain })
 }
 
 fn cell_of(col: &BasicTypeColumn, i: usize) -> Option<Value> {
@@ -242,6 +257,20 @@ fn check_shape(out: &QueryOutput, ex: Option<&Expect>, known_table_cols: Option<
         if let Some(l) = ex.limit {
             if len as u64 > l {
                 return Some(("shape:limit-exceeded".into(), format!("{} rows for LIMIT {}", len, l)));
+            }
+        }
+        // a plain SELECT returns exactly the table's rows after OFFSET, cut at LIMIT
+        if ex.plain && ncols > 0 {
+            if let Some(n) = ex.table.as_ref().and_then(|t| db::table_rows(t)) {
+                let n = n as u64;
+                let after = n - ex.offset.unwrap_or(0).min(n);
+                let want = ex.limit.unwrap_or(u64::MAX).min(after);
+                if len as u64 != want {
+                    return Some((
+                        "shape:row-count-expected".into(),
+                        format!("{} rows, expected {} (table has {}, LIMIT {:?}, OFFSET {:?})", len, want, n, ex.limit, ex.offset),
+                    ));
+                }
             }
         }
     }
